@@ -243,6 +243,14 @@ def gadget_networks() -> dict[str, list[list[int]]]:
     # below s = 0 a positive cycle {A, B}, below s = 1 a negative one; a second source SCC next to it
     g["src_xor_scc"] = bn.from_exprs(4, [lambda s: s[0], lambda s: s[2] != s[0], lambda s: s[1], lambda s: not s[3]])
     g["src_xor_scc2"] = bn.from_exprs(5, [lambda s: s[0], lambda s: s[2] != s[0], lambda s: s[1], lambda s: s[4], lambda s: s[3]])
+    # control: mutual inhibition + XOR feeding a self-sustaining variable; holding X = 1 derives Y = 0 and Z = 1, holding X = Y = 1
+    # gives Z = 0 (overrides whose members contradict each other's consequences)
+    g["ctl_conflict"] = bn.from_exprs(4, [lambda s: not s[1], lambda s: not s[0], lambda s: s[0] != s[1],
+                                          lambda s: (s[2] and s[0] and s[1]) or s[3]])
+    g["ctl_conflict5"] = bn.from_exprs(5, [lambda s: not s[1], lambda s: not s[0], lambda s: s[0] != s[1],
+                                           lambda s: (s[2] and s[0] and s[1]) or (s[3] and s[4]), lambda s: s[3]])
+    # a variable that becomes a source below a motif (X below A = 0) next to an independent bistable pair
+    g["derived_src"] = bn.from_exprs(4, [lambda s: s[0], lambda s: s[1] or s[0], lambda s: s[2] and s[3], lambda s: s[2]])
     g["xnor_latch"] = bn.disjoint_union(g["xnor2"], g["latch"])
     g["xnor_2latch"] = bn.disjoint_union(g["xnor_latch"], g["latch"])
     g["xnor_3latch"] = bn.disjoint_union(g["xnor_2latch"], g["latch"])
